@@ -359,7 +359,13 @@ func c20RunWrapper(c c20Case) drv.Result {
 	if c.Wrapper == "CloseStream" {
 		_ = cl.OpenStream(1, map[uint32]string{}, &models.Offset{SnapshotMarker: &models.SnapshotMarker{}, LatestSeqNo: ^uint64(0)}, obs)
 	}
-	deadline := c20Deadline
+	deadline := c20Deadline // fixed before the call starts (the watchdog below reads it concurrently with run)
+	switch c.Wrapper {
+	case "GetXattrs", "MetadataLoad":
+		deadline = 5 * time.Second
+	case "GetFailOverLogs", "GetVBucketSeqNos", "OpenStream", "CloseStream":
+		deadline = 60 * time.Second
+	}
 	run := func() {
 		ctx, cancel := context.WithTimeout(context.Background(), c20Deadline)
 		defer cancel()
@@ -373,7 +379,6 @@ func c20RunWrapper(c c20Case) drv.Result {
 		case "DeleteDocument":
 			callErr = couchbase.DeleteDocument(ctx, agent, "_default", "_default", key)
 		case "GetXattrs":
-			deadline = 5 * time.Second
 			gotVal, callErr = couchbase.GetXattrs(ctx, agent, "_default", "_default", key, "cbgo")
 		case "Get":
 			var r *gocbcore.GetResult
@@ -387,22 +392,17 @@ func c20RunWrapper(c c20Case) drv.Result {
 			md := couchbase.NewCBMetadata(cl, cfg)
 			callErr = md.Save(map[uint16]*models.CheckpointDocument{1: models.NewEmptyCheckpointDocument("u")}, map[uint16]bool{1: true}, "u")
 		case "MetadataLoad":
-			deadline = 5 * time.Second
 			md := couchbase.NewCBMetadata(cl, cfg)
 			_, _, callErr = md.Load([]uint16{1}, "u")
 		case "Ping":
 			_, callErr = cl.Ping()
 		case "GetFailOverLogs":
-			deadline = 60 * time.Second
 			_, callErr = cl.GetFailOverLogs(1)
 		case "GetVBucketSeqNos":
-			deadline = 60 * time.Second
 			_, callErr = cl.GetVBucketSeqNos(false)
 		case "OpenStream":
-			deadline = 60 * time.Second
 			callErr = cl.OpenStream(2, map[uint32]string{}, &models.Offset{SnapshotMarker: &models.SnapshotMarker{}, LatestSeqNo: ^uint64(0)}, obs)
 		case "CloseStream":
-			deadline = 60 * time.Second
 			callErr = cl.CloseStream(1)
 		}
 	}
